@@ -145,8 +145,14 @@ def pSizing : P SizingReq := fun ts => do
 
 structure ObsReq where
   size : Dimension F
+  /-- max-size of the container in this axis -/
+  maxSize : Dimension F
   gap : LP F
+  /-- content-box size if the style size is a definite length (clamped by min/max): the fill clause's hypothesis -/
   inner : Option F
+  /-- the content-box size auto-repetitions are counted against, computed by the harness from the style alone
+      (size, else max size, else min size; clamped; floored at padding + border) -/
+  autoFitInner : Option F
   occ : List Nat
   autos : List (TrackFn F)
   tpl : List (TrackDef F)
@@ -159,8 +165,10 @@ structure ObsReq where
 def pObs : P ObsReq := fun ts => do
   let (_, ts) ← tok ts
   let (size, ts) ← pLPA ts
+  let (maxSize, ts) ← pLPA ts
   let (gap, ts) ← pLP ts
   let (inner, ts) ← pOptF32 ts
+  let (autoFitInner, ts) ← pOptF32 ts
   let (occ, ts) ← pList pNat ts
   let (autos, ts) ← pList pFn ts
   let (tpl, ts) ← pTemplate ts
@@ -171,7 +179,7 @@ def pObs : P ObsReq := fun ts => do
     let (pos, ts) ← pNat ts
     let (sizes, ts) ← pList pF32 ts
     let (gutters, ts) ← pList pF32 ts
-    pure ({ size, gap, inner, occ, autos, tpl, neg, expl, pos, sizes, gutters }, ts)
+    pure ({ size, maxSize, gap, inner, autoFitInner, occ, autos, tpl, neg, expl, pos, sizes, gutters }, ts)
   | _ => none
 
 /-! ### property monitor -/
@@ -190,7 +198,7 @@ def fixedLen (t : GridTrack F) : Option F :=
 def monObs (o : ObsReq) : String :=
   let n := o.sizes.length
   if o.gutters.length != n + 1 || n != o.neg + o.expl + o.pos then "shape" else
-  match computeExplicitGridSizeInAxis o.size .auto o.gap o.tpl o.inner with
+  match computeExplicitGridSizeInAxis o.size o.maxSize o.gap o.tpl o.autoFitInner with
   | .error _ => "ok skipped-overflow"
   | .ok e =>
   if e != o.expl then "explicit-count" else
